@@ -27,7 +27,9 @@ RULE = ("Hypothesis-generated tables (1-3 snapshots, 1-4 data files, optionally 
         "{delete, truncate at 0 / structural boundaries / 4 generated offsets, random bytes, sibling's bytes and one flipped byte per region (data files), "
         "persistent read error on that file} x every read API (scan, parallel scan, batches of 1 / 10^4, iter_records, row_count) x verify_checksums "
         "{default on, off} x filter {none, pruning, non-pruning}. A metadata-plane damage is in the domain only if an independent parser (json / fastavro + "
-        "legacy JSON shape) also rejects the bytes. Non-trivial: the damaged file is needed by the read. distinct = (table, file class, damage, api, verify, filter).")
+        "legacy JSON shape) also rejects the bytes. Mid-read damage: a table with a multi-row-group data file; the file is replaced (sibling's bytes, flipped byte, "
+        "truncation, random bytes, deletion) right after EACH traced storage call that touches it during a verified read, or while a lazy read is suspended "
+        "after its first item; the read must raise or return exactly the table. Non-trivial: the damaged file is needed by the read. distinct = (table, file class, damage, api, verify, filter).")
 ASSUMPTIONS = ["'needed' is fixed per API from its documentation: scans need pointer->metadata->manifest list->manifests->every unpruned data file; row_count "
                "needs the metadata plane only", "a replacement that still parses (sibling bytes, benign flip) is unconstrained with verification off",
                "damage to the pointer itself is C10's subject and is not generated here"]
@@ -257,13 +259,130 @@ def _set(w, path, data):
             w.fake.raw_put(key, data)
 
 
+# ---------------- damage that lands WHILE a verified read is in progress ----------------
+MID_APIS = ["scan", "scan_par2", "batches_big", "batches400", "iter_records"]
+
+
+@st.composite
+def midread_case(draw):
+    return {"kind": "midread", "world": draw(st.sampled_from(["local", "local", "s3cas"])), "nbig": draw(st.sampled_from([1001, 1500, 2300])),
+            "nsmall": draw(st.integers(1, 3)), "flip": draw(st.integers(0, 10**6)), "rnd": draw(st.binary(min_size=8, max_size=32)),
+            "big_first": draw(st.booleans())}
+
+
+def _mid_read(t, api, suspend_hook=None):
+    """Rows of a verified (default) read; for the lazy APIs `suspend_hook` runs once after the first item was taken."""
+    if api in ("scan", "scan_par2"):
+        return rows_multiset(t.scan(parallel=2) if api == "scan_par2" else t.scan())
+    gen = t.iter_records() if api == "iter_records" else t.scan_batches(batch_size=10000 if api == "batches_big" else 400)
+    rows, first = [], True
+    for item in gen:
+        if api == "iter_records":
+            rows.append(item)
+        else:
+            rows.extend(item)
+        if first and suspend_hook is not None:
+            suspend_hook()
+        first = False
+    return rows_multiset(rows)
+
+
+def check_midread(case):
+    """With verification on, the bytes that are decoded are the bytes that were verified: a data file that changes while a
+    read is under way (after any storage call that touched it, or while a lazy read is suspended between two items) makes
+    the read raise or return exactly the undamaged rows - never altered or partial ones."""
+    out = {"violations": [], "labels": [f"world:{case['world']}", "midread"], "nontrivial": True}
+    with scratch_dir("c14m") as d:
+        w = c04.make_world(d, case["world"])
+        big = [{"k": j, "s": f"big{j % 7}"} for j in range(case["nbig"])]
+        small = [{"k": 100000 + j, "s": "small"} for j in range(case["nsmall"])]
+        with w.env():
+            t = w.create(make_schema(FIELDS))
+            for rows in ((big, small) if case["big_first"] else (small, big)):
+                t.append_records(rows)
+        v = read_view(w.fs())
+        cur = current_snapshot(v)
+        fs = w.fs()
+        by_size = sorted(cur["files"], key=lambda p: len(fs.get(p)))
+        small_path, big_path = by_size[0], by_size[-1]
+        orig = fs.get(big_path)
+        n = len(orig)
+        flipped = bytearray(orig)
+        flipped[n // 3 + case["flip"] % max(n // 2, 1)] ^= 0x5A
+        payloads = [("sibling", fs.get(small_path)), ("flip", bytes(flipped)), ("truncate", orig[: n // 2]), ("random", (case["rnd"] * (n // len(case["rnd"]) + 1))[:n]), ("delete", None)]
+        want = rows_multiset(big + small)
+        for api in MID_APIS:
+            # clean run: which traced calls touch the file?
+            st0 = Stepper()
+            with w.env(st0):
+                t0 = w.open()
+                st0.enabled = True
+                got0 = _mid_read(t0, api)
+                st0.enabled = False
+            if got0 != want:
+                out["violations"].append((f"midread/undamaged-read-wrong/{api}", f"{api} on the undamaged table returned {sum(got0.values())} rows, expected {sum(want.values())}"))
+                continue
+            touches = [i for i, (_n, ph, label, target) in enumerate(st0.events) if ph == "after" and target == big_path]
+            points = [("step", i) for i in range(len(touches))] + ([("suspended", 0)] if api in ("batches400", "iter_records") else [])
+            for dname, payload in payloads:
+                for kind, k in points:
+                    sti = Stepper()
+                    seen = [0]
+                    done = [False]
+
+                    def damage():
+                        if not done[0]:
+                            done[0] = True
+                            _set(w, big_path, payload)
+
+                    def h(nn, phase, label, target, info, k=k, kind=kind):
+                        if kind == "step" and phase == "after" and target == big_path and not done[0]:
+                            if seen[0] == k:
+                                damage()
+                            seen[0] += 1
+
+                    sti.handler = h
+                    try:
+                        with w.env(sti):
+                            t2 = w.open()
+                            sti.enabled = True
+                            try:
+                                got = _mid_read(t2, api, suspend_hook=damage if kind == "suspended" else None)
+                            except Exception as e:  # noqa
+                                got = e
+                            sti.enabled = False
+                    finally:
+                        _set(w, big_path, orig)
+                    out["labels"].append(f"mid:{kind}")
+                    out["labels"].append("mid:raised" if isinstance(got, Exception) else "mid:returned")
+                    if not done[0] or isinstance(got, Exception):
+                        continue
+                    if got != want:
+                        sym = "partial" if not (got - want) else "altered"
+                        out["violations"].append((f"midread/{sym}-rows/{api}/{kind}", f"{case['world']}: data file {big_path} replaced by '{dname}' {'after traced call #' + str(k) + ' on it' if kind == 'step' else 'while the lazy read was suspended after its first item'}; "
+                                                  f"{api}() with verification on returned {sum(got.values())} rows ({sum((got - want).values())} not in the table, {sum((want - got).values())} missing) instead of raising or returning the table"))
+    seen_b, uniq = set(), []
+    for b, wht in out["violations"]:
+        if b not in seen_b:
+            seen_b.add(b)
+            uniq.append((b, wht))
+    out["violations"] = uniq
+    out["labels"] = sorted(set(out["labels"]))
+    return out
+
+
 def plan(tier, seed):
     n = 2 if tier == "quick" else 40
-    return [{"n": n, "seed": seed * 1000 + s, "tier": tier} for s in range(16)]
+    tasks = [{"n": n, "seed": seed * 1000 + s, "tier": tier} for s in range(16)]
+    tasks += [{"kind": "midread", "n": 2 if tier == "quick" else 30, "seed": seed * 1000 + 500 + s, "tier": tier} for s in range(4 if tier == "quick" else 16)]
+    return tasks
 
 
 def run_task(task):
     res = Result()
+    if task.get("kind") == "midread":
+        campaign(midread_case(), check_midread, task["n"], task["seed"], res, PROP, shrink=False)
+        return res
     extra = set()
 
     def chk(case):
@@ -279,5 +398,8 @@ def run_task(task):
 
 
 def replay(case):
+    if case.get("kind") == "midread":
+        o = check_midread(case)
+        return [{"bucket": b, "what": w} for b, w in o["violations"]]
     o = check_table(case)
     return [{"bucket": b, "what": w} for b, w in o["violations"]]
